@@ -10,9 +10,10 @@
 From BV Require Import Base Term DTerm Symbols Chain Wire.
 
 (* Predicate.Equal at D level (FactSet.Insert, GetBlockID): index equality for
-   strings, Set.Equal's length + one-sided inclusion for sets *)
+   strings, Set.Equal's length + inclusion in both directions for sets *)
 Definition dset_equal (s c : list datom) : bool :=
-  Nat.eqb (length c) (length s) && forallb (fun x => existsb (fun y => datom_eqb y x) c) s.
+  Nat.eqb (length c) (length s) && forallb (fun x => existsb (fun y => datom_eqb y x) c) s
+  && forallb (fun x => existsb (fun y => datom_eqb y x) s) c.
 Definition dterm_geqb (a b : dterm) : bool :=
   match a, b with
   | DA x, DA y => datom_eqb x y
